@@ -140,6 +140,8 @@ def confirm(cfg, label, trace):
         r = json.loads(out.strip().split('\n')[-1])
     except Exception:
         r = {}
-    ok = bool(r.get('duplicates')) or 'PANIC' in out
+    # whole ids also carry 63 random bits, so a native duplicate of the whole id is not observable; the index is the component the
+    # code makes distinct - a repeated index is the native witness (the clock and the random source are arbitrary in the property)
+    ok = bool(r.get('duplicates')) or bool(r.get('duplicate_indices')) or 'PANIC' in out
     json.dump(dict(property='C12', label=label, schedule=trace, native=out[-400:], confirmed=ok, how='tools/replayer uniqueid-race 4 400000 (stress run, 4 threads x 400000 calls)'), open(path, 'w'), indent=1)
     return ok, path, 'native stress run: ' + out.strip()[-160:]
